@@ -22,7 +22,8 @@ TECHNIQUE = ("Hypothesis-generated straight-line programs as statement trees; re
              "and data-pointer model built from the tree; per-statement comparison of values and "
              "trapped (ERR, ERL)")
 RULE = ("Programs of 3-14 lines decoded from a Hypothesis-drawn genome: DATA statements alone on a "
-        "line, after and before other statements, two on a line, behind REM or ' (hidden), next to "
+        "line, after and before other statements (0-3 blanks after the line number or the colon in "
+        "front of every statement), two on a line, behind REM or ' (hidden), next to "
         "string literals containing ':DATA'; items: quoted strings (commas, colons, blanks inside), "
         "unquoted strings with inner/leading/trailing blanks, integers, dyadic decimals, &H and E "
         "forms, empty items, a last item whose quote is closed only by the end of the line; lines "
@@ -92,12 +93,15 @@ def program_text(case):
     if case['route'] == 'trap':
         out.append('1 ON ERROR GOTO 9000')
     out.append('2 DIM S$(%d),I%%(%d),F!(%d),D#(%d),E%%(%d),L!(%d),T%%(%d)' % ((MAXSLOT,) * 7))
-    for lineno, stmts in case['lines']:
+    pads = case.get('pads') or []
+    for li, (lineno, stmts) in enumerate(case['lines']):
         parts = []
-        for stm in stmts:
+        lpads = pads[li] if li < len(pads) else []
+        for si, stm in enumerate(stmts):
             if stm[0] in ('read', 'restore'):
                 seq += 1
-            txt = render_stmt(stm, seq)
+            # blanks in front of the statement (after the line number or the colon)
+            txt = ' ' * (lpads[si] if si < len(lpads) else 0) + render_stmt(stm, seq)
             if stm[0] == 'rem' and stm[1] == "'" and parts:
                 parts[-1] = parts[-1] + txt          # 10 X=1' comment
                 continue
@@ -528,7 +532,9 @@ def build(data, route):
     # finish with reads past the end now and then
     if g.take(3) == 0:
         lines.append([linenos[-1] + 7, reads() + [read_stmt()]])
-    return {'lines': lines, 'route': route}
+    # blanks in front of every statement: 10 X=X+1:  DATA 1,2
+    pads = [[g.pick([0, 1, 0, 2, 1, 3]) for _ in st_] for _, st_ in lines]
+    return {'lines': lines, 'route': route, 'pads': pads}
 
 
 def strat():
@@ -544,6 +550,15 @@ def units(tier):
 
 
 REGRESSIONS = [
+    # DATA behind ': ' (blank after the colon), reached by first READ, running on, RESTORE n
+    {'lines': [[10, [['let'], ['data', [['n', '1', 0, 0], ['n', '2', 0, 0]]]]],
+               [20, [['let'], ['data', [['q', 'a', 0, 2]]], ['data', [['n', '3', 0, 0]]]]],
+               [30, [['read', [['%', 0], ['%', 1], ['$', 2], ['%', 3]]]]],
+               [40, [['restore', 20], ['read', [['$', 4]]]]],
+               [50, [['restore', None], ['read', [['!', 5]]]]],
+               [60, [['let'], ['let'], ['data', [['n', '4', 0, 0]]]]],
+               [70, [['restore', 60], ['read', [['%', 6], ['$', 7]]]]]],
+     'pads': [[0, 1], [0, 1, 2], [0], [0, 0], [0, 3], [1, 2, 3], [0, 1]], 'route': 'trap'},
     # lines that end inside a string literal, quotes in comments, unclosed last DATA item
     {'lines': [[10, [['open', 'let', 'start']]], [20, [['let'], ['rem', 'REM', '5.25" disk']]],
                [30, [['data', [['n', '5', 0, 0], ['o', 'abc', 0, 0]]]]],
@@ -586,6 +601,10 @@ KILLS = [
     "interpreter.py restore_: RESTORE n positions one byte into line n -> read.value.string, "
     "syntax-error.line, restore.missing-line",
     "interpreter.py restore_: missing line silently ignored -> restore.missing-line",
+    "codestream.py skip_to_token: blanks skipped only at the start of a line (wave-4 seed; needs "
+    "': DATA' with a blank after the colon) -> read.value.*, out-of-data.*, read.unexpected-error, "
+    "restore.missing-line (regression 10 X=X+1: DATA 1,2 / 20 X=X+1: DATA \"a\"  :  DATA 3 and "
+    "the random unit)",
     "codestream.py skip_to: 'literal' no longer reset at the end of a line (seeded change; needs a "
     "line with an odd number of quotes between the data pointer and the next DATA) -> "
     "read.value.*, read.unexpected-error, out-of-data.*, syntax-error.*, restore.missing-line "
